@@ -3,6 +3,13 @@ Hand-written model of the point-chunking logic of `fuvw` / `fstrain`
 (compmech/panel/models/clt_bardell_field.pyx:47-98) and of `integratev`'s work split:
 pad the point list with zeros to a multiple of `num_cores`, reshape to `(num_cores, -1)`, let every
 "core" map its row, ravel, keep the first `size` results.
+
+Second part: hand model of `Panel.strain` / `Panel.stress` (compmech/panel/_panel.py:992-1092, plain Python): `strain` hands
+`int(NLterms)` to the field kernel `fstrain` (a PARAMETER here; its per-point, per-degree-of-freedom content is regenerated in
+`Gen/Field/Clt.lean`), `stress` calls `self.strain(c, xs, ys, gridx, gridy, NLterms=NLterms)` and multiplies the six strain components of
+every point by the rows of the laminate matrix (`F` argument, else `self.F`, else `ValueError`).  This part has no driver: it is tied
+to the running code by the numerical clause "stress = F * strain of the same option" of `tools/props/C11.py` (both `NLterms` values,
+every generated case) — not by a recorded-trace correspondence.
 -/
 namespace Compmech.Chunking
 
@@ -21,5 +28,58 @@ def chunkedMap {α β : Type} (f : α → β) (z : α) (xs : List α) (cores : N
   let padded := xs ++ List.replicate (addSize xs.length cores) z
   let w := padded.length / cores
   (((rows cores w padded).map (List.map f)).flatten).take xs.length
+
+/-! ### `Panel.strain` / `Panel.stress` -/
+
+/-- the six arrays `exx, eyy, gxy, kxx, kyy, kxy` of `fstrain`, at one point -/
+structure Strain6 (K : Type) where
+  exx : K
+  eyy : K
+  gxy : K
+  kxx : K
+  kyy : K
+  kxy : K
+
+/-- the six arrays `Nxx, Nyy, Nxy, Mxx, Myy, Mxy` of `Panel.stress`, at one point -/
+structure Res6 (K : Type) where
+  Nxx : K
+  Nyy : K
+  Nxy : K
+  Mxx : K
+  Myy : K
+  Mxy : K
+
+/-- `int(NLterms)` -/
+def nlFlag (NLterms : Bool) : Nat := if NLterms then 1 else 0
+
+/-- `Panel.strain(c, xs, ys, NLterms)`: `fstrain(c, self, xs, ys, self.out_num_cores, int(NLterms))` — the wrapper `fstrain` pads,
+chunks, lets every core run the C kernel (`kernel flag point`) on its chunk, ravels and trims (`chunkedMap`) -/
+def panelStrain {α K : Type} (kernel : Nat → α → Strain6 K) (z : α) (cores : Nat) (NLterms : Bool) (pts : List α) :
+    List (Strain6 K) :=
+  chunkedMap (kernel (nlFlag NLterms)) z pts cores
+
+/-- `exx*F[r, 0] + eyy*F[r, 1] + gxy*F[r, 2] + kxx*F[r, 3] + kyy*F[r, 4] + kxy*F[r, 5]` -/
+def stressRow {K : Type} [Add K] [Mul K] (F : Fin 6 → Fin 6 → K) (r : Fin 6) (e : Strain6 K) : K :=
+  e.exx * F r 0 + e.eyy * F r 1 + e.gxy * F r 2 + e.kxx * F r 3 + e.kyy * F r 4 + e.kxy * F r 5
+
+/-- the six resultants of one point -/
+def applyF {K : Type} [Add K] [Mul K] (F : Fin 6 → Fin 6 → K) (e : Strain6 K) : Res6 K :=
+  ⟨stressRow F 0 e, stressRow F 1 e, stressRow F 2 e, stressRow F 3 e, stressRow F 4 e, stressRow F 5 e⟩
+
+/-- components by index, in the order of the laminate matrix -/
+def Strain6.vec {K : Type} (e : Strain6 K) : Fin 6 → K
+  | 0 => e.exx | 1 => e.eyy | 2 => e.gxy | 3 => e.kxx | 4 => e.kyy | 5 => e.kxy
+
+def Res6.vec {K : Type} (s : Res6 K) : Fin 6 → K
+  | 0 => s.Nxx | 1 => s.Nyy | 2 => s.Nxy | 3 => s.Mxx | 4 => s.Myy | 5 => s.Mxy
+
+/-- `Panel.stress(c, F, xs, ys, NLterms)`: `res_strain = self.strain(c, xs, ys, gridx, gridy, NLterms=NLterms)`;
+`if F is None: F = self.F`; `if F is None: raise ValueError` (`none`); then the six products, point by point -/
+def panelStress {α K : Type} [Add K] [Mul K] (selfF Farg : Option (Fin 6 → Fin 6 → K))
+    (kernel : Nat → α → Strain6 K) (z : α) (cores : Nat) (NLterms : Bool) (pts : List α) : Option (List (Res6 K)) :=
+  let res_strain := panelStrain kernel z cores NLterms pts
+  match (match Farg with | some F => some F | none => selfF) with
+  | none => none
+  | some F => some (res_strain.map (applyF F))
 
 end Compmech.Chunking
